@@ -20,7 +20,7 @@ def no_panic(out):
 
 def generate(rng, tier):
     cs = []
-    n = 150 if tier == "quick" else 5000
+    n = 150 if tier == "quick" else 20000
     As = [1, 2, 3, N - 1, N - 2, N + 1, N + 2, (1 << 256) - 1, (1 << 255), 256, 1 << 248, 0x0100000000000000000000000000000000000000000000000000000000000000 >> 8]
     vs = [1, 2, N - 1, N - 2, 3]
     for _ in range(n):
